@@ -49,7 +49,7 @@ def cmdline(cfg, out):
          "--SavePhaseSpace", str(cfg["h5save"]), "--RenormalizeCharge", str(cfg["renorm"]),
          "-I", "1e-3", "--gui", "0", "-G", "0.03" if cfg["wake"] else "0"]
     if cfg.get("dynrf"):
-        a += ["--LinearRF", "0", "--RFPhaseModAmplitude", "0.5", "--RFPhaseModFrequency", "1000"]
+        a += ["--LinearRF", str(cfg.get("linrf", 0)), "--RFPhaseModAmplitude", "0.5", "--RFPhaseModFrequency", "1000"]
     if cfg.get("tracking"):
         a += ["--tracking", cfg["tracking"], "--FPTrack", str(cfg.get("fptrack", 1))]
     if cfg.get("verbose"):
